@@ -255,7 +255,11 @@ func (l *Lexer) shiftRawText() []byte {
 					inScript := false
 					for {
 						c := l.r.Peek(0)
-						if c == '-' && l.r.Peek(1) == '-' && l.r.Peek(2) == '>' {
+						if 0 < len(l.tmplBegin) && l.at(l.tmplBegin...) {
+							l.r.Move(len(l.tmplBegin))
+							l.moveTemplate()
+							l.hasTmpl = true
+						} else if c == '-' && l.r.Peek(1) == '-' && l.r.Peek(2) == '>' {
 							l.r.Move(3)
 							break
 						} else if c == '<' {
